@@ -135,7 +135,7 @@ impl Complex {
 	}
 
 	pub(crate) fn pow<I: Interrupt>(self, rhs: Self, int: &I) -> FResult<Exact<Self>> {
-		if !rhs.real.is_integer() || !rhs.imag.is_integer() {
+		if !rhs.real.is_integer(int)? || !rhs.imag.is_integer(int)? {
 			return self.frac_pow(rhs, int);
 		}
 
